@@ -208,7 +208,7 @@ CHECKS["C19"] = {
 
 CHECKS["C11"] = {
     "technique": "metamorphic testing (delimiter rewrite of generated templates) and model-based history testing (interleaved environments vs each environment's own operations alone)",
-    "text": "(a) Generated templates with a generated partial and template comments are written with placeholder delimiters and instantiated with two delimiter sets (default or random vs random: strings of 1-4 characters over punctuation, regex metacharacters and letters, incl. the liquid-tag comment marker derived from the comment delimiter); unless an occurrence scan finds a collision, both environments must give the same result. A derived relation renders text that looks like default delimiters under custom delimiters. (b) Histories of 5-18 operations (create, parse into a slot, render a slot, add a filter, add a tag) over 2-4 environments differing in delimiters, tolerance, extra tags and registered tags/filters must give every environment the results its own operations give alone (memo caches cleared; in a pristine forked process on shard 0).",
+    "text": "(a) Generated templates with a generated partial and template comments are written with placeholder delimiters and instantiated with two delimiter sets (default or random vs random: strings of 1-4 characters over punctuation, regex metacharacters and letters, incl. the liquid-tag comment marker derived from the comment delimiter); unless an occurrence scan finds a collision, both environments must give the same result. A derived relation renders text that looks like default delimiters under custom delimiters. (b) Histories of 5-18 operations (create, parse into a slot, render a slot, add a filter, add a tag) over 2-4 environments differing in delimiters, tolerance, extra tags and registered tags/filters must give every environment the results its own operations give alone (every sixteenth history in a pristine forked process, the others in-process with memo caches cleared and a unique nonce in every source).",
     "design_ref": "DESIGN.md §4 C11",
     "note": "Collision is decided by scanning the final source for delimiter occurrences outside their placements, which also rejects delimiter strings that contain one another.",
 }
